@@ -79,7 +79,19 @@ def gen_cases(rng, tier):
                 b = _qty.tok(rng, _qty.amount(rng))
                 ops.append(["q_bin", rng.choice(["mul", "div"]),
                             *rng.sample([f"{a}@{u}", f"{b}@{w}"], 2), mode])
+        if ctx.kind == "predefined":
+            # products whose RESULT type is quantised although neither operand is
+            from props import C02
+            for o in C02._quantised_result_ops(ctx, rng, per // 2):
+                o[-1] = rng.choice(MODES)
+                ops.append(o)
         cases.append(_qty.case_of(ctx, ops, ["quantised"]))
+    # money x rate, money / rate: the exact product / quotient rounded once
+    from props import C10
+    for c in C10.gen_cases(rng, "quick")[:4 if tier != "thorough" else 12]:
+        c["tags"] = ["rate-application"]
+        c["delegate"] = "C10"
+        cases.append(c)
     # money: arithmetic across currencies under an active converter, all modes
     # (the exact result on the stored operands is rounded ONCE)
     from props import C12
@@ -99,6 +111,9 @@ def oracle(case, impl):
     if case.get("delegate") == "C12":
         from props import C12
         return [f for f in C12.oracle(case, impl) if f["site"] == "stack:conversion"]
+    if case.get("delegate") == "C10":
+        from props import C10
+        return [f for f in C10.oracle(case, impl) if f["site"] == "apply:money"]
     ctx = _qty.ctx_of(case)
     fails = _qty.setup_failures(case, impl)
     for o, out in list(zip(case["ops"], impl))[case["nsetup"]:]:
@@ -157,7 +172,7 @@ def oracle(case, impl):
 def nontrivial_key(case, impl):
     keys = set()
     if case.get("delegate"):
-        return {("money", o[1], o[-1]) for o in case["ops"] if o[0] == "q_bin"}
+        return {("money", o[1], o[-1]) for o in case["ops"] if o[0] in ("q_bin", "money_rate")}
     for o, out in list(zip(case["ops"], impl))[case["nsetup"]:]:
         keys.add((o[0], o[1] if o[0] in ("q_bin", "q_num") else "", o[-1], out.rpartition("@")[2]))
     return keys
